@@ -247,12 +247,42 @@ def _cli_string(rng, k, v):
     return rng.choice([k, "%s:%s:%s" % (k, s, s), ":", k + ":", ":" + s, "%s=%s" % (k, s), ""])
 
 
+def _reuse_case(rng, real, algos):
+    """second use in one process: ONE user dict prepared for two algorithms, then edited after an
+    AlgorithmDef was built from it"""
+    if rng.random() < 0.75:
+        a1, a2 = rng.sample(algos, 2) if rng.random() < 0.6 else rng.choice(
+            [("dsa", "adsa"), ("mgm", "dsa"), ("adsa", "dsa"), ("mgm2", "mgm"), ("dsa", "dpop"), ("dba", "syncbb"),
+             ("maxsum", "amaxsum"), ("mixeddsa", "dsa")])
+        if a1 not in real or a2 not in real:
+            a1, a2 = algos[0], algos[-1]
+        d1, d2, s1, s2 = real[a1], real[a2], None, None
+    else:
+        a1 = a2 = None
+        s1, s2 = _syn_defs(rng), _syn_defs(rng)
+        d1, d2 = s1, s2
+    n2 = {d["name"] for d in d2}
+    shared = [d for d in d1 if d["name"] in n2]
+    pool = shared if rng.random() < 0.8 else d1
+    params, names = [], []
+    for d in pool:
+        if d["name"] not in names and rng.random() < 0.5:
+            names.append(d["name"])
+            params.append([d["name"], _value_for(rng, d, 0.92)])
+    edit = rng.choice(["set", "add", "del", "clear"])
+    return dict(kind="reuse", algo1=a1, algo2=a2, defs1=s1, defs2=s2, params=params,
+                via=rng.choice(["direct", "algodef"]), edit=edit)
+
+
 def gen(rng, n, tier):
     real = _real_defs()
     algos = sorted(real)
     cases = []
     for i in range(n):
         r = rng.random()
+        if rng.random() < 0.12:
+            cases.append(_reuse_case(rng, real, algos))
+            continue
         if r < 0.2:
             d = rng.choice(real[rng.choice(algos)] or [None]) if rng.random() < 0.5 else None
             if d is None:
@@ -355,6 +385,43 @@ def run_impl(c):
         out = _catch(call)
         out["defs_seen"] = seen
         return out
+    if c["kind"] == "reuse":
+        defs1 = A.load_algorithm_module(c["algo1"]).algo_params if c["algo1"] else _mk_defs(c["defs1"])
+        defs2 = A.load_algorithm_module(c["algo2"]).algo_params if c["algo2"] else _mk_defs(c["defs2"])
+        user = {k: P(v) for k, v in c["params"]}          # the ONE dict the caller owns
+
+        def prep(defs, name):
+            def call():
+                if c["via"] == "direct":
+                    r = A.prepare_algo_params(user, defs)
+                else:
+                    r = A.AlgorithmDef.build_with_default_param(name or "fake", user,
+                                                                parameters_definitions=defs).params
+                return sorted([k, V(v)] for k, v in r.items())
+            return _catch(call)
+        first = prep(defs1, c["algo1"])
+        second = prep(defs2, c["algo2"])
+
+        # an AlgorithmDef must not follow later edits of the dict it was built from
+        user2 = {k: P(v) for k, v in c["params"]}
+
+        def build_then_edit():
+            ad = A.AlgorithmDef.build_with_default_param(c["algo1"] or "fake", user2,
+                                                         parameters_definitions=defs1)
+            if c["edit"] == "set":
+                for k in list(user2):
+                    user2[k] = "edited"
+            elif c["edit"] == "add":
+                user2["added_later"] = 1
+            elif c["edit"] == "del":
+                for k in list(user2)[:1]:
+                    del user2[k]
+            else:
+                user2.clear()
+            return sorted([k, V(ad.param_value(k))] for k in ad.param_names())
+        third = _catch(build_then_edit)
+        return dict(first=first, second=second, third=third,
+                    defs1_seen=[_def_json(d) for d in defs1], defs2_seen=[_def_json(d) for d in defs2])
     # build
     from pydcop.commands._utils import build_algo_def
     fake_name = None
@@ -514,6 +581,17 @@ def oracle(c, o):
         defs = o["defs_seen"]
         params = [] if c["params_none"] else c["params"]
         return _compare(_expected_params(params, defs), o, "prepare(%s)" % c["via"])
+    if c["kind"] == "reuse":
+        # ground truth: each preparation is judged against the user's ORIGINAL settings
+        m = _compare(_expected_params(c["params"], o["defs1_seen"]), o["first"], "first preparation")
+        if m:
+            return m
+        m = _compare(_expected_params(c["params"], o["defs2_seen"]), o["second"],
+                     "second preparation of the same user dict (for another algorithm)")
+        if m:
+            return m
+        return _compare(_expected_params(c["params"], o["defs1_seen"]), o["third"],
+                        "AlgorithmDef read after the caller edited (%s) the dict it was built from" % c["edit"])
     # build
     if c["mod"] == "none":
         if c["cli"]:
@@ -593,6 +671,10 @@ def _strings(c, o):
         for _, v in c["params"]:
             add(v)
         defs = o["defs_seen"]
+    elif c["kind"] == "reuse":
+        for _, v in c["params"]:
+            add(v)
+        defs = o["defs2_seen"]
     else:
         for s in c["cli"] or []:
             for p in s.split(":"):
@@ -629,6 +711,10 @@ def coq_case(c, o):
         params = [] if c["params_none"] else c["params"]
         return "CPrepare %s %s %s %s" % (tabs, _dict_term(params), q.lst([_def_term(d) for d in o["defs_seen"]]),
                                          _res_term(o, _dict_term))
+    if c["kind"] == "reuse":
+        return "CPrepare %s %s %s %s" % (tabs, _dict_term(c["params"]),
+                                         q.lst([_def_term(d) for d in o["defs2_seen"]]),
+                                         _res_term(o["second"], _dict_term))
     md = "None" if o["mod_seen"] is None else "(Some %s)" % q.lst([_def_term(d) for d in o["mod_seen"]])
     cli = "None" if c["cli"] is None else "(Some %s)" % q.slist(c["cli"])
     return "CBuild %s %s %s %s %s" % (tabs, md, q.lst([_def_term(d) for d in o["name_seen"]]), cli,
@@ -642,6 +728,8 @@ def nontrivial(c, o):
         return bool(c["params"]) or bool(o.get("defs_seen"))
     if c["kind"] == "build":
         return bool(c["cli"]) or bool(o.get("mod_seen"))
+    if c["kind"] == "reuse":
+        return True
     return ":" in c["s"]
 
 
@@ -654,6 +742,9 @@ def histogram(cases, obs):
         if k == "build":
             k += "/" + c["mod"] + ("" if c["algo"] or c["mod"] != "synthetic" else "-registered")
         h[k] += 1
+        if c["kind"] == "reuse":
+            h["result:" + (o["second"].get("error") or "ok")] += 1
+            continue
         h["result:" + (o.get("error") or "ok")] += 1
         if c.get("algo"):
             h["algo:" + c["algo"]] += 1
